@@ -203,7 +203,7 @@ class Check:
         shutil.copy(src, dst)
         txt = open(src).read()
         lemmas = [(m.group(1), txt[:m.start()].count('\n') + 1)
-                  for m in re.finditer(r'^Lemma\s+(\w+)', txt, flags=re.M)]
+                  for m in re.finditer(r'^\s*Lemma\s+(\w+)', txt, flags=re.M)]
         rc2, out2 = self.coqc(dst) if rc == 0 else (1, 'generated file did not compile')
         if rc2 == 0:
             for nm, _ in lemmas:
